@@ -39,6 +39,7 @@ type FuncContract struct {
 	Requires  []Clause
 	Ensures   []Clause
 	Defines   []Clause // definitional postconditions: assumed at call sites, not checked against the body (listed as assumptions)
+	Assumes   []Clause // assumed at function entry, NOT checked at call sites (shape of the input the caller cannot express); listed as assumptions
 	Modifies  []Clause // expressions p.f / p.f[*]; a single "*" identifier = everything
 	ModAll    bool
 	Decreases *Clause
@@ -136,7 +137,7 @@ type srcLine struct {
 
 var blockKw = map[string]bool{"func": true, "spec": true, "predicate": true, "axiom": true, "lemma": true,
 	"ghostfield": true, "functype": true, "interface": true, "guard": true, "const": true, "extern": true, "package": true}
-var clauseKw = map[string]bool{"requires": true, "ensures": true, "defines": true, "modifies": true, "decreases": true, "loop": true,
+var clauseKw = map[string]bool{"requires": true, "ensures": true, "defines": true, "assumes": true, "modifies": true, "decreases": true, "loop": true,
 	"uses": true, "trusted": true, "pure": true, "inline": true, "nopanic": true, "maypanic": true, "induction": true,
 	"refines": true, "implements": true, "props": true, "trigger": true, "read": true, "write": true}
 
@@ -388,6 +389,15 @@ func (c *Contracts) parseLines(lines []srcLine, scope string) error {
 				return err
 			}
 			curF.Defines = append(curF.Defines, e)
+		case "assumes":
+			if curF == nil {
+				return fmt.Errorf("%s:%d: assumes outside func", s.file, s.line)
+			}
+			e, err := mk(s, s.rest)
+			if err != nil {
+				return err
+			}
+			curF.Assumes = append(curF.Assumes, e)
 		case "modifies":
 			if curF == nil {
 				return fmt.Errorf("%s:%d: modifies outside func", s.file, s.line)
